@@ -26,7 +26,7 @@ def _name(id, ctx=None):
 
 
 def _call(fn: str, *args, **kw):
-    f = ast.Attribute(value=_name("__vfw"), attr=fn, ctx=ast.Load())
+    f = ast.Attribute(value=_name("_vfw"), attr=fn, ctx=ast.Load())
     return ast.Call(func=f, args=list(args), keywords=[ast.keyword(arg=k, value=v) for k, v in kw.items()])
 
 
@@ -309,7 +309,7 @@ class FunctionTransformer(ast.NodeTransformer):
                 value=_call("havoc", _const(key), _const(nm),
                             ast.Call(func=ast.Attribute(value=ast.Call(func=_name("locals"), args=[], keywords=[]),
                                                         attr="get", ctx=ast.Load()),
-                                     args=[_const(nm), ast.Attribute(value=_name("__vfw"), attr="UNBOUND", ctx=ast.Load())],
+                                     args=[_const(nm), ast.Attribute(value=_name("_vfw"), attr="UNBOUND", ctx=ast.Load())],
                                      keywords=[]))))
         for a in attrs:
             tgt = _parse_expr(a)
